@@ -436,3 +436,349 @@ class GaussianPlateSum(Contract):
         exp_S = ("reshape", ("permute", "prec_sqrt", tuple(kept + [n] + redp + [n + 1])), kept_sizes + (ctx.dim, -1))
         exp_inputs = [k for k in ctx.inputs if k not in ctx.reduced]
         return [("white_vec_stacked_along_rank", w.tag == exp_w), ("prec_sqrt_stacked_along_rank", S.tag == exp_S), ("inputs_without_the_plate_order_kept", list(ins) == exp_inputs and all(ins[k] is ctx.inputs[k] for k in exp_inputs))]
+
+
+# ==================================================================================================
+# C12 / C04: Gaussian._eager_subs_real -- block bookkeeping of substituting real values
+# ==================================================================================================
+class LArr:
+    """formal array: a tag plus a shape; slicing rows of prec_sqrt / concatenating blocks / products are recorded"""
+
+    def __init__(self, tag, shape=()):
+        self.tag, self.shape = tag, tuple(shape)
+
+    def reshape(self, shape):
+        shape = list(shape)
+        if -1 in shape:
+            total = 1
+            for d in self.shape:
+                total *= d
+            known = 1
+            for d in shape:
+                if d != -1:
+                    known *= d
+            shape[shape.index(-1)] = total // known
+        return LArr(self.tag, tuple(shape))
+
+    def __getitem__(self, idx):
+        # prec_sqrt[..., i, :]: the row block i
+        if isinstance(idx, tuple) and len(idx) == 3 and idx[0] is Ellipsis and isinstance(idx[1], slice) and idx[2] == slice(None):
+            return LArr(("rows", self.tag, (idx[1].start, idx[1].stop)), self.shape[:-2] + (idx[1].stop - idx[1].start, self.shape[-1]))
+        raise Unsupported("indexing form outside the block model")
+
+    def __sub__(self, other):
+        return LArr(("sub", self.tag, other.tag), self.shape)
+
+    def __rmul__(self, c):
+        return LArr(("scale", c, self.tag), self.shape)
+
+
+@register
+class GaussianSubsRealBlocks(Contract):
+    """Gaussian._eager_subs_real(subs, remaining): with the Gaussian read block-wise, g(x) = -1/2 | sum_k x_k P_k - w |^2 (P_k the
+    rows of prec_sqrt at k's offsets, contract ComputeOffsets), substituting values v_k for the real inputs k in b gives
+      partial (some real input stays):  Gaussian(w - sum_{k in b} v_k P_k,  rows P_k for the remaining k IN THE ORDER OF THE
+        RESULT'S REAL INPUTS,  inputs = aligned batch inputs ++ remaining real inputs in order);
+      complete (b = all real inputs):   Tensor(-1/2 | sum_k v_k P_k - w |^2) with each v_k placed at k's own offsets;
+    in both cases EVERY value is multiplied with the rows of ITS OWN input, whatever order the pairs are given in (the
+    order of the pairs is the caller's: explicit Subs, fused chains), and the remaining pairs are applied to the result.
+    Batch alignment (align_tensors / broadcasting) and the numerics of the products are the callees' (bounded tier).
+    structure bound: 2..3 real inputs of equal size (so that a mix-up is not caught by shapes), one batch input, every
+    non-empty subset substituted, pairs given in every order."""
+
+    props = ("C12", "C04")
+    file = "funsor/gaussian.py"
+    qualname = "Gaussian._eager_subs_real"
+    total = True
+    mutants = (
+        ("values concatenated in the order of the pairs", "        value_b = ops.cat([values[k] for k, i in slices if k in b], -1)", "        value_b = ops.cat(list(values.values()), -1)"),
+        ("remaining rows taken in the order of the pairs' complement reversed", "        prec_sqrt_a = ops.cat([prec_sqrt[..., i, :] for k, i in slices if k in a], -2)", "        prec_sqrt_a = ops.cat([prec_sqrt[..., i, :] for k, i in reversed(slices) if k in a], -2)"),
+        ("value written at the offsets of the next input", "                    value[..., i] = values[k]", "                    value[..., slices[(list(values).index(k) + 1) % len(slices)][1]] = values[k]"),
+    )
+
+    def structures(self, tier):
+        for pat in ("xy", "xyz", "xiy", "ixyz"):
+            reals = [c for c in pat if c != "i"]
+            for r in range(1, len(reals) + 1):
+                for sub in itertools.permutations(reals, r):
+                    for rem in (False, True):
+                        yield "inputs=%s,pairs=%s,remaining=%s" % (pat, "".join(sub), rem), (pat, sub, rem)
+
+    def build(self, p, st):
+        pat, sub, rem = st
+        N = 2
+        inputs = OrderedDict()
+        for c in pat:
+            inputs[c] = Dom(3, 1) if c == "i" else Dom("real", N)
+        reals = [c for c in pat if c != "i"]
+        dim = N * len(reals)
+        batch = (3,) if "i" in pat else ()
+
+        class Self:
+            pass
+
+        s = Self()
+        s.inputs = inputs
+        s.white_vec = LArr("w", batch + (7,))
+        s.prec_sqrt = LArr("P", batch + (dim, 7))
+
+        class TensorT:
+            def __init__(self, data, inputs_=None):
+                self.data, self.inputs = data, inputs_ if inputs_ is not None else OrderedDict()
+                self.shape = data.shape
+
+        class TensorCls:
+            @staticmethod
+            def __sym_instancecheck__(x):
+                return isinstance(x, TensorT)
+
+            def __call__(self, data, inputs_=None):
+                return tensor_out[0](data, inputs_)
+
+        tensor_out = [TensorT]
+        TensorK = TensorCls()
+        values = OrderedDict((k, TensorT(LArr(("v", k), batch + (N,)))) for k in sub)
+        made, subs_calls = [], []
+
+        def align_tensors(*ts):
+            ii = OrderedDict((k, d) for k, d in inputs.items() if d.dtype != "real")
+            return ii, [t.data for t in ts]
+
+        def compute_offsets(ins):
+            off, tot = OrderedDict(), 0
+            for k, d in ins.items():
+                if d.dtype == "real":
+                    off[k] = tot
+                    tot += d.num_elements
+            return off, tot
+
+        class BV:
+            def __init__(self, shape):
+                self.shape, self.parts = shape, {}
+
+            def __sym_setitem__(self, idx, val):
+                if not (isinstance(idx, tuple) and idx[0] is Ellipsis and isinstance(idx[1], slice)):
+                    raise Unsupported("BlockVector index")
+                self.parts[(idx[1].start, idx[1].stop)] = val
+
+            __setitem__ = __sym_setitem__
+
+            def as_tensor(self):
+                return LArr(("blockvector", tuple(sorted((k, v.tag) for k, v in self.parts.items()))), self.shape)
+
+        class Ops:
+            @staticmethod
+            def cat(parts, axis):
+                parts = list(parts)
+                sh = list(parts[0].shape)
+                sh[axis] = sum(q.shape[axis] for q in parts)
+                return LArr(("cat", tuple(q.tag for q in parts), axis), sh)
+
+            @staticmethod
+            def expand(a, shape):
+                return LArr(a.tag, tuple(shape) if -1 not in shape else a.shape)
+
+            @staticmethod
+            def new_full(proto, shape, v):
+                return LArr(("const", v), shape)
+
+        def vm(vec, mat):
+            return LArr(("vm", vec.tag, mat.tag), vec.shape[:-1] + mat.shape[-1:])
+
+        def norm2(vec):
+            return LArr(("norm2", vec.tag), vec.shape[:-1])
+
+        class ResT:
+            output = "Real"
+
+            def __init__(self, k):
+                self.k = k
+
+            def __eq__(self, o):
+                return isinstance(o, ResT) and o.k == self.k
+
+            def __hash__(self):
+                return hash(("ResT", self.k))
+
+        def GaussianK(w, S, ins):
+            made.append(("Gaussian", w, S, ins))
+            return ResT(len(made) - 1)
+
+        def TensorOut(data, ins=None):
+            if isinstance(data, LArr) and data.tag[0] == "scale":
+                made.append(("Tensor", data, ins))
+                return ResT(len(made) - 1)
+            return TensorT(data, ins)
+
+        tensor_out[0] = TensorOut
+
+        def SubsK(res, remaining):
+            subs_calls.append((res, remaining))
+            return ("Subs", res, remaining)
+
+        remaining = (("zz", "lazy"),) if rem else ()
+        ns = dict(OrderedDict=OrderedDict, Tensor=TensorK, ops=Ops, align_tensors=align_tensors, broadcast_shape=lambda *shs: batch, _compute_offsets=compute_offsets, BlockVector=BV,
+                  get_tracing_state=lambda: False, _vm=vm, _norm2=norm2, Gaussian=GaussianK, Subs=SubsK, Real="Real", frozenset=frozenset, slice=slice, zip=zip, len=len, all=core.sall, isinstance=core.sisinstance)
+        return Ctx(args=(s, tuple(values.items()), remaining), namespace=ns, st=st, made=made, subs_calls=subs_calls, reals=reals, N=N, remaining=remaining, inputs=inputs, ResT=ResT)
+
+    def ensures(self, ctx, result):
+        pat, sub, rem = ctx.st
+        N, reals = ctx.N, ctx.reals
+        off = {k: (j * N, j * N + N) for j, k in enumerate(reals)}
+        if len(ctx.made) != 1:
+            return [("one_result_built", False)]
+        inner = ctx.ResT(0)
+        wrap_ok = (result == ("Subs", inner, ctx.remaining) and len(ctx.subs_calls) == 1) if rem else (result == inner and not ctx.subs_calls)
+        cl = [("remaining_pairs_applied_to_the_result", wrap_ok)]
+        kept = [k for k in reals if k not in sub]
+        if kept:
+            kind, w, S, ins = ctx.made[0]
+            ok = kind == "Gaussian"
+            pairs_ok = rows_ok = ins_ok = False
+            if ok and w.tag[0] == "sub" and w.tag[1] == "w" and w.tag[2][0] == "vm":
+                vt, pt = w.tag[2][1], w.tag[2][2]
+                if vt[0] == "cat" and pt[0] == "cat" and len(vt[1]) == len(pt[1]):
+                    got = sorted(zip(vt[1], pt[1]))
+                    exp = sorted((("v", k), ("rows", "P", off[k])) for k in sub)
+                    pairs_ok = got == exp
+            if ok and S.tag[0] == "cat":
+                rows_ok = list(S.tag[1]) == [("rows", "P", off[k]) for k in kept]
+            if ok:
+                ins_ok = list(ins) == [c for c in pat if c == "i"] + kept
+            cl += [("every_value_meets_the_rows_of_its_own_input", pairs_ok), ("remaining_rows_in_the_order_of_the_results_real_inputs", rows_ok), ("inputs_batch_then_remaining_reals", ins_ok)]
+        else:
+            kind, data, ins = ctx.made[0]
+            ok = kind == "Tensor" and data.tag[0] == "scale" and data.tag[1] == -0.5 and data.tag[2][0] == "norm2"
+            placed = False
+            if ok:
+                inner_t = data.tag[2][1]
+                if inner_t[0] == "sub" and inner_t[2] == "w" and inner_t[1][0] == "vm" and inner_t[1][2] == "P" and inner_t[1][1][0] == "blockvector":
+                    placed = dict(inner_t[1][1][1]) == {off[k]: ("v", k) for k in sub}
+            cl += [("complete_substitution_evaluates_the_quadratic_form", ok), ("every_value_placed_at_its_own_offsets", placed), ("result_over_the_batch_inputs", ok and list(ins) == [c for c in pat if c == "i"])]
+        return cl
+
+
+# ==================================================================================================
+# C12 / C04: Gaussian.eager_subs -- which pairs are applied first
+# ==================================================================================================
+class ValK:
+    def __init__(self, kind, tag):
+        self.kind, self.tag = kind, tag
+        self.dtype = "real" if kind in ("real_num", "real_tensor", "affine", "lazy", "var_real") else 3
+        self.affine = kind == "affine"
+
+    def __repr__(self):
+        return "%s:%s" % (self.kind, self.tag)
+
+
+@register
+class GaussianEagerSubsOrder(Contract):
+    """Gaussian.eager_subs(subs): pairs whose key is not an input are ignored; nothing substituted returns self; otherwise
+    ONE class of pairs is applied now and every other pair is handed on, unchanged and in a fixed order, as `remaining`:
+      renamings (Variable values) first; else the integer-valued pairs (Number / Tensor / Slice of integer dtype) -- BEFORE
+      any real-valued pair, because a real value may carry its own caller-side batch inputs, which an index applied after
+      it would capture (g(i=1, x=v(i))) --; else the real constants / tensors; else the affine values; else a lazy Subs.
+    No pair is lost or duplicated: applied ++ remaining is a permutation of the pairs whose key is an input.
+    structure bound: <= 3 pairs over 8 kinds of value, one foreign key."""
+
+    props = ("C12", "C04")
+    file = "funsor/gaussian.py"
+    qualname = "Gaussian.eager_subs"
+    total = True
+    mutants = (
+        ("real values applied before indices", "        if int_subs:\n            return self._eager_subs_int(int_subs, real_subs + affine_subs + lazy_subs)\n        if real_subs:\n            return self._eager_subs_real(real_subs, affine_subs + lazy_subs)", "        if real_subs:\n            return self._eager_subs_real(real_subs, int_subs + affine_subs + lazy_subs)\n        if int_subs:\n            return self._eager_subs_int(int_subs, affine_subs + lazy_subs)"),
+        ("affine pairs dropped when an index is applied", "return self._eager_subs_int(int_subs, real_subs + affine_subs + lazy_subs)", "return self._eager_subs_int(int_subs, real_subs + lazy_subs)"),
+    )
+
+    KINDS = ["var", "int_num", "int_tensor", "slice", "real_num", "real_tensor", "affine", "lazy"]
+
+    def structures(self, tier):
+        yield "pairs=-", ()
+        yield "pairs=foreign-only", ("foreign",)
+        for n in (1, 2, 3):
+            for ks in itertools.product(self.KINDS, repeat=n):
+                if tier == "quick" and n == 3 and len(set(ks)) < 2:
+                    continue
+                yield "pairs=%s" % ",".join(ks), ks
+        yield "pairs=foreign,int_num,real_tensor", ("foreign", "int_num", "real_tensor")
+
+    def build(self, p, ks):
+        names = ["a", "b", "c"]
+        calls = []
+
+        class VariableT(ValK):
+            pass
+
+        class SliceT(ValK):
+            pass
+
+        class NumberT(ValK):
+            pass
+
+        class TensorT(ValK):
+            pass
+
+        cls_of = {"var": VariableT, "slice": SliceT, "int_num": NumberT, "real_num": NumberT, "int_tensor": TensorT, "real_tensor": TensorT, "affine": ValK, "lazy": ValK, "foreign": NumberT}
+        subs = []
+        j = 0
+        for k in ks:
+            if k == "foreign":
+                subs.append(("zz", NumberT("int_num", "zz")))
+                continue
+            nm = names[j]
+            j += 1
+            subs.append((nm, cls_of[k](k, nm)))
+
+        class Self:
+            pass
+
+        s = Self()
+        s.inputs = OrderedDict((n, "dom") for n in names)
+        s.white_vec = "w"
+        for m in ("_eager_subs_var", "_eager_subs_int", "_eager_subs_real", "_eager_subs_affine"):
+            setattr(s, m, lambda applied, remaining, m=m: calls.append((m, applied, remaining)) or ("delegated", m))
+
+        class Proto:
+            def materialize(self, v):
+                return v
+
+        class Reflect:
+            @staticmethod
+            def interpret(cls, arg, lazy_subs):
+                calls.append(("lazy_Subs", lazy_subs, ()))
+                return ("delegated", "lazy_Subs")
+
+        def isinst(x, c):
+            if isinstance(c, tuple):
+                return any(isinst(x, cc) for cc in c)
+            return isinstance(x, c)
+
+        ns = dict(Tensor=type("TK", (), {"__call__": lambda self_, d: Proto(), "__sym_instancecheck__": staticmethod(lambda x: isinstance(x, TensorT))})(), Variable=VariableT, Slice=SliceT, Number=NumberT,
+                  is_affine=lambda v: v.affine, affine_inputs=lambda v: frozenset(["u"]) if v.affine else frozenset(), reflect=Reflect, Subs="SubsCls", isinstance=core.sisinstance, tuple=tuple)
+        return Ctx(args=(s, tuple(subs)), namespace=ns, s=s, subs=subs, calls=calls, ks=ks)
+
+    def ensures(self, ctx, result):
+        live = [(k, v) for k, v in ctx.subs if k in ctx.s.inputs]
+        if not live:
+            return [("nothing_to_substitute_returns_self", result is ctx.s and not ctx.calls)]
+        if len(ctx.calls) != 1:
+            return [("exactly_one_delegation", False)]
+        m, applied, remaining = ctx.calls[0]
+        kinds = [v.kind for k, v in live]
+        if "var" in kinds:
+            exp_m, sel = "_eager_subs_var", {"var"}
+        elif any(k in ("int_num", "int_tensor", "slice") for k in kinds):
+            exp_m, sel = "_eager_subs_int", {"int_num", "int_tensor", "slice"}
+        elif any(k in ("real_num", "real_tensor") for k in kinds):
+            exp_m, sel = "_eager_subs_real", {"real_num", "real_tensor"}
+        elif "affine" in kinds:
+            exp_m, sel = "_eager_subs_affine", {"affine"}
+        else:
+            exp_m, sel = "lazy_Subs", {"lazy"}
+        exp_applied = [(k, v) for k, v in live if v.kind in sel]
+        both = list(applied) + list(remaining)
+        no_loss = len(both) == len(live) and all(any(k is k2 and v is v2 for k2, v2 in both) for k, v in live)
+        order = [["var"], ["int_num", "int_tensor", "slice"], ["real_num", "real_tensor"], ["affine"], ["lazy"]]
+        rank = {k: i for i, grp in enumerate(order) for k in grp}
+        rem_sorted = all(rank[a[1].kind] <= rank[b[1].kind] for a, b in zip(remaining, list(remaining)[1:]))
+        return [("right_class_applied_first", m == exp_m and list(applied) == exp_applied and result == ("delegated", exp_m)), ("no_pair_lost_or_duplicated", no_loss), ("remaining_pairs_grouped_indices_before_real_values", rem_sorted)]
